@@ -1,5 +1,5 @@
 (** Correspondence and monitors for C12 (streamed HTTP responses). *)
-From GV Require Import Base.Prelude Model.Sse Model.Multipart.
+From GV Require Import Base.Prelude Model.Sse Model.Multipart Model.SseLock.
 Open Scope list_scope.
 
 Inductive c12_case :=
@@ -45,11 +45,31 @@ Definition sse_monitor (payloads : list bytes) (body : bytes) : bool :=
   | None => false
   end.
 
-(** the correspondence: the body is byte for byte what the model writes for the order of writes it shows *)
+(** the order of writes the stream shows is a behaviour of the lock discipline (Model.SseLock): each event is the
+    handler taking the lock, writing, unlocking, then resetting the ticker under the lock; each ping is a tick, the
+    keep-alive taking the lock and writing; then the completion, the final flush, and a last tick that finds the
+    stream done *)
+Definition item_eqb (a b : item) : bool :=
+  match a, b with IEv, IEv | IPing, IPing | IComplete, IComplete => true | _, _ => false end.
+Definition lock_trace (acts : list sse_act) : list sklabel :=
+  flat_map (fun a => match a with
+                     | APayload _ => [LHandler; LHandler; LHandler; LHandler]
+                     | APing => [LTick; LKeepAlive; LKeepAlive]
+                     end) acts
+  ++ [LHandler; LHandler; LHandler; LHandler; LTick; LKeepAlive; LKeepAlive].
+Definition lock_accepts (acts : list sse_act) : bool :=
+  match skrun as_written (skinit (List.length (payloads_of acts))) (lock_trace acts) with
+  | Some s => handler_finished s &&
+              list_eqb item_eqb (map fst (sk_out s)) (map (fun a => match a with APayload _ => IEv | APing => IPing end) acts ++ [IComplete])
+  | None => false
+  end.
+
+(** the correspondence: the body is byte for byte what the model writes for the order of writes it shows, and that
+    order is a behaviour of the lock discipline *)
 Definition sse_corr (body : bytes) : bool :=
   match middle (parse_stream body) with
   | Some m => match acts_of_items m with
-              | Some acts => bytes_eqb (sse_bytes acts 0) body
+              | Some acts => bytes_eqb (sse_bytes acts 0) body && lock_accepts acts
               | None => false
               end
   | None => false
